@@ -114,7 +114,42 @@ def monitor(c):
     return out
 
 
+def byteslike_never_elementwise(out):
+    """text and bytes-like values are never read element by element: str, bytes, bytearray and memoryview offered to every
+    sequence / set / tuple target (alone, as list element, as dataclass field) are refused"""
+    import typing as t
+    import collections.abc
+    import pane
+    n = 0
+
+    class Row(pane.PaneBase, in_format=('tuple', 'struct')):
+        a: int
+        b: int = 0
+    targets = [t.List[int], t.List[str], t.Sequence[int], t.Tuple[int, ...], t.Tuple[int, int], t.Set[int], t.FrozenSet[int], t.Deque[int], list, tuple,
+               collections.abc.Sequence, t.List[t.Any], Row, t.Optional[t.List[int]], t.Union[t.List[int], int]]
+    values = [('str', 'ab'), ('bytes', b'ab'), ('bytearray', bytearray(b'ab')), ('memoryview', memoryview(b'ab')), ('memoryview of a bytearray', memoryview(bytearray(b'ab')))]
+    with warnings.catch_warnings():
+        warnings.simplefilter('ignore')
+        for T in targets:
+            for kname, v in values:
+                for label, TT, vv in (('top', T, v), ('list element', t.List[T], [v]), ('mapping value', t.Dict[str, T], {'k': v})):
+                    n += 1
+                    try:
+                        r = pane.from_data(vv, TT)
+                    except pane.ConvertError:
+                        continue
+                    except Exception as e:
+                        out.violation(f'C02:byteslike:{kname}:escape', f'{label}: from_data({vv!r}, {TT!r}) raised {type(e).__name__}: {str(e)[:120]}', {'target': repr(TT), 'kind': kname})
+                        continue
+                    if T in (t.List[t.Any], list, tuple, collections.abc.Sequence) and kname == 'str':
+                        pass
+                    out.violation(f'C02:byteslike:{kname}:read-elementwise', f'{label}: a {kname} value {vv!r} is accepted as {TT!r} -> {r!r}; text and bytes are never read as sequences',
+                                  {'target': repr(TT), 'kind': kname})
+    return n
+
+
 def run(ctx, out):
+    out.evaluations += byteslike_never_elementwise(out)
     import families as _fam2
     out.evaluations += _fam2.scalar_subclass_family(out, PROP)
     import families, random as _random
